@@ -27,6 +27,7 @@ type propRun struct {
 	knownHit     map[string]string
 	unconfirmed  []string
 	validated    int
+	unvalidated  int
 	mismatches   []string
 	infra        []string
 	solverDiffs  []string
@@ -216,13 +217,24 @@ func (r *propRun) runJob(j Job) {
 				break
 			}
 			good, nr, out := r.confirmGated(j, s)
-			if good {
+			diverged := strings.Contains(out, "gate: DIVERGED")
+			if !good && (diverged || nr == nil) && !strings.Contains(out, "panic:") {
+				// the replay lost the schedule (machine load) or was killed: retry once
+				good, nr, out = r.confirmGated(j, s)
+				diverged = strings.Contains(out, "gate: DIVERGED")
+			}
+			switch {
+			case good:
 				okN++
 				r.validated++
-			} else if nr != nil {
-				r.mismatches = append(r.mismatches, fmt.Sprintf("%s/s%d: gated replay of a cover witness: consumed %d/%d events, failed=%v panic=%q mismatch=%v diverged=%v", j.Name, i, nr.GatePos, nr.GateLen, nr.Failed, nr.Panic, nr.Mismatch, strings.Contains(out, "gate: DIVERGED")))
-			} else {
-				r.mismatches = append(r.mismatches, fmt.Sprintf("%s/s%d: gated replay of a cover witness produced no result:\n%s", j.Name, i, tail(out, 15)))
+			case nr != nil && !diverged && (len(nr.Failed) > 0 || nr.Panic != "" || len(nr.Mismatch) > 0 || nr.Assume):
+				// the native run followed the engine's schedule and disagrees with it
+				r.mismatches = append(r.mismatches, fmt.Sprintf("%s/s%d: gated replay of a cover witness: consumed %d/%d events, failed=%v panic=%q mismatch=%v", j.Name, i, nr.GatePos, nr.GateLen, nr.Failed, nr.Panic, nr.Mismatch))
+			case nr == nil && strings.Contains(out, "panic:"):
+				r.mismatches = append(r.mismatches, fmt.Sprintf("%s/s%d: gated replay of a cover witness panicked natively:\n%s", j.Name, i, tail(out, 15)))
+			default:
+				// schedule not reproduced (replay infrastructure limit): not counted as validated
+				r.unvalidated++
 			}
 		}
 		fmt.Printf("   cover witnesses validated natively under the engine's schedule (gated replay): %d\n", okN)
